@@ -240,10 +240,24 @@ func (e *Engine) typeTag(t types.Type) int {
 }
 
 // makeLimit: the largest element count a make([]T, n) may be given (allocation limit of DESIGN C15).
-func (e *Engine) makeLimit(et types.Type) uint64 {
+func (e *Engine) makeLimit(et types.Type) uint64 { return e.makeLimitFor(et, nil) }
+
+// makeLimitFor: an alloclimit directive states a documented allocation bound of the property it is written under (the
+// decoders' maxEncoded* limits); it is an obligation only in units of that property.
+func (e *Engine) makeLimitFor(et types.Type, ct *Contract) uint64 {
 	k := types.TypeString(et, func(p *types.Package) string { return "" })
 	if v, ok := e.cs.AllocLimits[k]; ok {
-		return v
+		props := e.cs.AllocLimitProps[k]
+		if ct == nil || len(props) == 0 {
+			return v
+		}
+		for _, p := range props {
+			for _, q := range ct.Props {
+				if p == q {
+					return v
+				}
+			}
+		}
 	}
 	return maxLen
 }
